@@ -174,16 +174,31 @@ func checkC04(r *Report) {
 			reqCount[q.Expr] = q.Count
 		}
 		unknown := 0
+		present := map[string]bool{}
+		for _, s := range ss {
+			present[s.expr] = true
+		}
 		seenExpr := map[string]int{}
 		for _, s := range ss {
 			seenExpr[s.expr]++
 			key := fmt.Sprintf("%s: %s #%d", fn, s.expr, seenExpr[s.expr])
 			if !known[s.expr] {
 				unknown++
-				if len(ss) > ent.Sites {
+				// a renamed variable keeps the shape of a reviewed expression that is no
+				// longer present under its old spelling; anything else is a new expression
+				renamed := ""
+				for _, e := range ent.Exprs {
+					if !present[e] && exprShape(e) == exprShape(s.expr) {
+						renamed = e
+					}
+				}
+				switch {
+				case len(ss) > ent.Sites:
 					r.bad("C04.1/BOUNDS", key, p.pos(s.pos), fmt.Sprintf("this function now has %d unproven bounds checks but only %d were reviewed, and this expression is not among them", len(ss), ent.Sites))
-				} else {
-					r.ok("C04.1/BOUNDS", key, p.pos(s.pos), "expression text differs from the reviewed list but the function is within its reviewed budget ("+ent.Kind+")")
+				case renamed != "":
+					r.ok("C04.1/BOUNDS", key, p.pos(s.pos), "same shape as the reviewed expression "+renamed+" (identifiers renamed), within the reviewed budget ("+ent.Kind+")")
+				default:
+					r.bad("C04.1/BOUNDS", key, p.pos(s.pos), "a bounds-checked expression of a form that was not reviewed appears in a reviewed function (the count is within budget, but no reviewed expression that has gone has this shape): the reviewed argument does not cover it")
 				}
 				continue
 			}
@@ -872,4 +887,53 @@ func compositeLen(pk *packages.Package, cl *ast.CompositeLit) int64 {
 		}
 	}
 	return max
+}
+
+// exprShape replaces the identifiers of an expression text by positional
+// placeholders ($1, $2, ... in order of first appearance; builtins and
+// literals stay), so that renaming variables keeps the shape.
+func exprShape(s string) string {
+	var b strings.Builder
+	names := map[string]int{}
+	i := 0
+	isStart := func(c byte) bool { return c == '_' || c >= 'a' && c <= 'z' || c >= 'A' && c <= 'Z' }
+	isPart := func(c byte) bool { return isStart(c) || c >= '0' && c <= '9' }
+	for i < len(s) {
+		c := s[i]
+		switch {
+		case c == '"' || c == '\'' || c == '`':
+			j := i + 1
+			for j < len(s) && s[j] != c {
+				if s[j] == '\\' {
+					j++
+				}
+				j++
+			}
+			if j < len(s) {
+				j++
+			}
+			b.WriteString(s[i:j])
+			i = j
+		case isStart(c):
+			j := i
+			for j < len(s) && isPart(s[j]) {
+				j++
+			}
+			w := s[i:j]
+			switch w {
+			case "len", "cap", "int", "string", "byte", "nil", "true", "false":
+				b.WriteString(w)
+			default:
+				if _, ok := names[w]; !ok {
+					names[w] = len(names) + 1
+				}
+				fmt.Fprintf(&b, "$%d", names[w])
+			}
+			i = j
+		default:
+			b.WriteByte(c)
+			i++
+		}
+	}
+	return b.String()
 }
